@@ -138,6 +138,9 @@ class Lits(object):
                 # Python tries the reflected comparison first when the right operand's type is a subclass of the left
                 # operand's type (rand_bit_t(bit_t), rand_int_t(int_t), rand_enum_t(enum_t)): `n < r` is recorded as `r > n`
                 op, l, r = MIRROR[op], r, l
+            elif op in MIRROR and l[0] == "lit" and r[0] != "lit":
+                # a plain Python int on the left: int's comparison gives up and the DSL operand's reflected method records it
+                op, l, r = MIRROR[op], r, l
             return "(EBin %s %s %s)" % (OPCOQ[op], self.expr(l), self.expr(r))
         if k == "not":
             return "(ENot %s)" % self.expr(e[1])
